@@ -32,6 +32,7 @@ import (
 	"errors"
 	"fmt"
 	"regexp"
+	"sort"
 	"strconv"
 	"strings"
 	"time"
@@ -599,9 +600,28 @@ func parseMonthName(parts []string, monthPos int) (string, error) {
 	return CleanSpace(monthName), nil
 }
 
+// quoteDateWords escapes each of the "|" separated words so they can be used as
+// alternatives in a regular expression. Many of the words end with a "." which
+// must only match a literal period.
+//
+// The longest words come first because the first alternative that leads to a
+// match wins: "after 1900" must not be read as "aft" followed by "er".
+func quoteDateWords(words string) string {
+	quoted := strings.Split(words, "|")
+	sort.SliceStable(quoted, func(i, j int) bool {
+		return len(quoted[i]) > len(quoted[j])
+	})
+
+	for i, word := range quoted {
+		quoted[i] = regexp.QuoteMeta(word)
+	}
+
+	return strings.Join(quoted, "|")
+}
+
 var dateRegexp = regexp.MustCompile(
-	fmt.Sprintf(`(?i)^(%s|%s|%s)? ?(\d+ )?(\w+ )?(\d+)$`,
-		DateWordsAbout, DateWordsBefore, DateWordsAfter))
+	fmt.Sprintf(`(?i)^(%s)? ?(\d+ )?(\w+ )?(\d+)$`,
+		quoteDateWords(DateWordsAbout+"|"+DateWordsBefore+"|"+DateWordsAfter)))
 
 func parseDateParts(dateString string, isEndOfRange bool) Date {
 	parts := dateRegexp.FindStringSubmatch(dateString)
